@@ -68,6 +68,10 @@ func (x *Exec) atChan(what string, chv ssa.Value, ch Val, v Val, c *ssa.CallComm
 		if len(at.Binders) > 0 {
 			binders[at.Binders[0]] = v
 		}
+		if len(at.Binders) > 1 && what == "recv" && x.recvOK.T != "" {
+			// second binder of a receive hook: the comma-ok result (false: channel closed)
+			binders[at.Binders[1]] = x.recvOK
+		}
 		env := x.envAt(nil)
 		env.binders = binders
 		g := "true"
@@ -112,12 +116,17 @@ func (x *Exec) recvInstr(in *ssa.UnOp) {
 	ch := x.val(in.X)
 	et := in.X.Type().Underlying().(*types.Chan).Elem()
 	v := x.freshVal("recv", et, x.brk(), x.guard)
-	x.atChan("recv", in.X, ch, v, nil)
 	if in.CommaOk {
 		ok := x.freshVal("recvok", types.Typ[types.Bool], "", x.guard)
+		x.recvOK = ok
+		x.atChan("recv", in.X, ch, v, nil)
+		x.recvOK = Val{}
 		x.vals[in] = Val{Tup: []Val{v, ok}, Sort: "Tuple", GT: in.Type()}
 		return
 	}
+	x.recvOK = x.freshVal("recvok", types.Typ[types.Bool], "", x.guard) // not observed by the code: the channel may be closed
+	x.atChan("recv", in.X, ch, v, nil)
+	x.recvOK = Val{}
 	x.vals[in] = v
 }
 
@@ -140,7 +149,7 @@ func (x *Exec) selectInstr(in *ssa.Select) {
 			v := x.freshVal("selrecv", et, x.brk(), x.guard)
 			recvs = append(recvs, v)
 			sv := s
-			x.withGuard(cond, func() { x.atChan("recv", sv.Chan, ch, v, nil) })
+			x.withGuard(cond, func() { x.recvOK = okv; x.atChan("recv", sv.Chan, ch, v, nil); x.recvOK = Val{} })
 		} else {
 			v := x.materialize(x.val(s.Send))
 			sv := s
